@@ -152,6 +152,24 @@ func H_id(nt, nm int) {
 	verifAssert(id1 == refID([]byte(text), []byte(meaning)), "message id differs from the official algorithm")
 }
 
+// H_idMeaning: the id of a structured message (placeholders, html tags, plural; msg indexes
+// c10Msgs) with a symbolic meaning of nm bytes and a symbolic description: the official id of its
+// placeholder string and meaning, independent of the description, different meanings kept apart
+// exactly as the official combination does.
+func H_idMeaning(msg, nm int) {
+	meaning := verifString(nm)
+	m1, m2 := c10Parse(msg), c10Parse(msg)
+	m1.Meaning, m2.Meaning = meaning, meaning
+	m1.Desc, m2.Desc = verifString(1), "other"
+	SetPlaceholdersAndID(m1)
+	SetPlaceholdersAndID(m2)
+	verifObserve("msg", c10Msgs[msg])
+	verifObserve("meaning", meaning)
+	verifAssert(m1.ID == m2.ID, "message id depends on the description")
+	verifAssert(m1.ID>>63 == 0, "message id has the top bit set")
+	verifAssert(m1.ID == refID([]byte(c10FpString(m1)), []byte(meaning)), "id of a message with a meaning differs from the official algorithm")
+}
+
 // ---- placeholder names ----
 
 var c10Msgs = []string{
@@ -165,11 +183,13 @@ var c10Msgs = []string{
 	"<b>{$a}</b> <b>x</b>{$foo2bar}", // 7 repeated tags
 	"{$a.x}{$b.x}{$x_1}",           // 8 suffixed name collides with another base name
 	"{$x_1}{$a.x}{$b.x}",           // 9 the same, other order
+	"{$a|escapeUri}{$a}{$a|id}{$a}", // 10 one expression under different directives: distinct placeholders
+	"<a href=\"x\">{$a}</a> <a href=\"y\">{$b}</a>", // 11 two link tags that differ in an attribute
 }
 
 // wellDefined: messages on which the official algorithm gives every placeholder a name
 // (8 and 9 make it overwrite an entry; only order independence is claimed there).
-func c10WellDefined(i int) bool { return i < 8 }
+func c10WellDefined(i int) bool { return i != 8 && i != 9 }
 
 func c10Parse(i int) *ast.MsgNode {
 	src := "{namespace n}\n/** */\n{template .t}\n{msg desc=\"d\"}" + c10Msgs[i] + "{/msg}\n{/template}\n"
